@@ -8,6 +8,6 @@ Definition check := check_C06.
 (** (1) the implementation's batch sequence equals the seeded run's, batch for batch, order inside
     batches included; (2) the relational replay accepts it; (3) shuffling modes: the lock-step replay
     with the draws the harness made on the real rand crates accepts it too (cross-check),
-    deterministic modes: equality with the oracle model's run *)
+    deterministic modes: the whole output equals the model's (seeded = oracle run there) *)
 Definition agree (inp m i : val) : bool := agree_C06s inp m i.
 Extraction "model.ml" run check agree.
